@@ -214,6 +214,10 @@ def perform(U, action, args, state):
             op = U.portfolio.setup_split_optim_problem(U.prices[g][p], U.grids[g], interval_size='3h')
             U.last = (op, p, g, 'split')
             return digest(op)
+        if action == 'CostSamples':
+            g, = args
+            cs = U.portfolio.create_cost_samples([U.prices[g]['p1'], U.prices[g]['p2']], U.grids[g])
+            return ('cost_samples',) + tuple(tuple(np.round(np.asarray(c, float), 9)) for c in cs)
         if action == 'Optimize':
             op = U.last[0]
             res = op.optimize(solver='SCIPY')
